@@ -53,6 +53,12 @@ type CompScenario struct {
 	YieldOp    string       `json:"yieldOp"`   // stop | cancel | "" — injected at the reloadWithRestart.beforeBoot yield point
 	Sequential bool         `json:"seq"`       // operations are issued one after the other (each waits for the previous to finish)
 	PreCancel  bool         `json:"preCancel"` // the context is cancelled before Run() is invoked
+	// BootReload: a Reload() is issued while Run() is still booting (from inside the first configuration callback): the
+	// reload is refused, the composite goes to Error, Run() starts the children, fails to enter Running and returns
+	BootReload bool `json:"bootReload,omitempty"`
+	// CbStop: stop | cancel | "" - issued from inside the callback of the first Reload(); the callback then waits until
+	// Run() has returned before it hands out the configuration, so that the reload's restart boots after the return
+	CbStop string `json:"cbStop,omitempty"`
 }
 
 type compChild struct {
@@ -202,8 +208,24 @@ func runCompScenario(sc CompScenario) compResult {
 	}
 	var cbCount, wantRunning atomic.Int32
 	var injected atomic.Bool // a child was made to exit by itself: fewer children than configured is then expected
+	var runnerRef atomic.Pointer[composite.Runner[supervisor.Runnable]]
+	var cbStopFn atomic.Pointer[func()]
 	cb := func() (*composite.Config[supervisor.Runnable], error) {
 		k := int(cbCount.Add(1)) - 1
+		if k == 0 && sc.BootReload {
+			if rp := runnerRef.Load(); rp != nil {
+				rec.add("LC90")
+				rc, rcancel := context.WithCancel(context.Background())
+				rp.Reload(rc)
+				rcancel()
+				rec.add("LT90:%s", rp.GetState())
+			}
+		}
+		if k == 1 && sc.CbStop != "" {
+			if f := cbStopFn.Load(); f != nil {
+				(*f)()
+			}
+		}
 		idx := k
 		if idx >= len(sc.Configs) {
 			idx = len(sc.Configs) - 1
@@ -233,10 +255,25 @@ func runCompScenario(sc CompScenario) compResult {
 	}
 	runner, err := composite.NewRunner(cb, composite.WithLogHandler[supervisor.Runnable](slog.NewTextHandler(lw, &slog.HandlerOptions{Level: slog.LevelDebug})))
 	must(err)
+	runnerRef.Store(runner)
 	ctx, cancel := context.WithCancel(context.Background())
 	defer cancel()
 	var cancelOnce sync.Once
 	doCancel := func() { cancelOnce.Do(func() { rec.add("CX"); cancel() }) }
+	runDone := make(chan struct{})
+	cbStop := func() {
+		switch sc.CbStop {
+		case "stop":
+			go func() { rec.add("TC7"); runner.Stop(); rec.add("TR7") }()
+		case "cancel":
+			doCancel()
+		}
+		select { // Run() reacts while the reload is parked in its callback
+		case <-runDone:
+		case <-time.After(400 * time.Millisecond):
+		}
+	}
+	cbStopFn.Store(&cbStop)
 	// the yield hook: inject Stop/cancel between setConfig and boot of a restart reload
 	var yielded atomic.Bool
 	compositeYield.Store(&yieldFn{f: func(point string) {
@@ -256,7 +293,6 @@ func runCompScenario(sc CompScenario) compResult {
 		doCancel()
 	}
 	watch := watchStates(runner.GetStateChan, time.Duration(len(sc.Ops)*3)*time.Millisecond)
-	runDone := make(chan struct{})
 	go func() {
 		rec.add("RUN")
 		res := runner.Run(ctx)
@@ -348,7 +384,10 @@ func runCompScenario(sc CompScenario) compResult {
 			for j := 0; j < n; j++ {
 				k = reloadNo.Add(1) - 1
 				rec.add("LC%d", k)
-				runner.Reload(context.Background())
+				// the caller's context lives exactly as long as the call (request-scoped): Reload() must not tie anything to it
+				rc, rcancel := context.WithCancel(context.Background())
+				runner.Reload(rc)
+				rcancel()
 				rec.add("LT%d:%s", k, runner.GetState())
 			}
 			if sc.Sequential {
@@ -615,6 +654,23 @@ func genCompScenario(r interface {
 }
 
 var compCorpus = []CompScenario{
+	// a Reload() while Run() is still booting: refused, Error; Run() starts the children, cannot enter Running and
+	// returns - every child it started must end
+	{Pool: []ChildSpec{{"a", "f", "wc", 0, 0}, {"b", "f", "wc", 0, 0}},
+		Configs: []CompConfig{{"ok", []CompEntry{{0, 1}, {1, 1}}}}, BootReload: true},
+	{Pool: []ChildSpec{{"a", "l", "wc", 0, 0}, {"b", "l", "r", 0, 0}, {"c", "f", "-", 0, 0}},
+		Configs: []CompConfig{{"ok", []CompEntry{{0, 1}, {1, 1}, {2, 1}}}}, BootReload: true},
+	// Stop / cancel while a restart reload is still fetching its configuration: Run() returns first, the reload's
+	// boot comes afterwards - its children are born with a context that is done and must end
+	{Pool: []ChildSpec{{"a", "f", "wc", 0, 0}, {"b", "f", "wc", 0, 0}, {"c", "f", "r", 0, 0}},
+		Configs: []CompConfig{{"ok", []CompEntry{{0, 1}}}, {"ok", []CompEntry{{1, 1}, {2, 1}}}},
+		Ops:     []CompOp{{0, "reload"}}, CbStop: "stop"},
+	{Pool: []ChildSpec{{"a", "l", "wc", 0, 0}, {"b", "l", "wc", 0, 0}, {"c", "l", "r", 0, 0}},
+		Configs: []CompConfig{{"ok", []CompEntry{{0, 1}}}, {"ok", []CompEntry{{1, 1}, {2, 1}}}},
+		Ops:     []CompOp{{0, "reload"}}, CbStop: "cancel"},
+	{Pool: []ChildSpec{{"a", "l", "wc", 0, 0}, {"b", "l", "wc", 0, 0}},
+		Configs: []CompConfig{{"ok", []CompEntry{{0, 1}}}, {"ok", []CompEntry{{0, 1}, {1, 1}}}},
+		Ops:     []CompOp{{0, "reload"}}, CbStop: "stop"},
 	// grow 1 -> 3, then a new child fails (finding C10-F1, fixed)
 	{Pool: []ChildSpec{{"a", "f", "wc", 0, 0}, {"b", "f", "wc", 0, 0}, {"c", "f", "r", 0, 0}},
 		Configs: []CompConfig{{"ok", []CompEntry{{0, 1}}}, {"ok", []CompEntry{{0, 1}, {1, 1}, {2, 1}}}},
